@@ -226,7 +226,9 @@ func (m *afmReaderModel) run(mode *afmMode, line string) afmLineResult {
 		return stdCall(ev, call, args)
 	}
 	// make([]T, n) with constant n is an array cell and a slice of it: model the slice as a list
-	eachInstr(m.fn, func(ins ssa.Instruction) {
+	// (in the reader and in the helpers it consists of: a constructor of the result is evaluated
+	// in place)
+	bindMake := func(ins ssa.Instruction) {
 		sl, ok := ins.(*ssa.Slice)
 		if !ok || sl.Low != nil {
 			return
@@ -265,7 +267,10 @@ func (m *afmReaderModel) run(mode *afmMode, line string) afmLineResult {
 			el[i] = zero
 		}
 		ev.bind[sl] = ev.newList(el)
-	})
+	}
+	for _, f := range c.afmWriterFuncs(m.fn) {
+		eachInstr(f, bindMake)
+	}
 	// a cell allocated during the evaluation that has not been written holds the zero value
 	ev.load = func(ld *ssa.UnOp, addr sv) (sv, bool) {
 		if m.emptyState && addr.k == svAddr && !strings.HasPrefix(addr.s, "cell") {
@@ -702,6 +707,12 @@ func (c *Ctx) afmWriterEvents(root *ssa.Function) (events []afmEvent, nonConst [
 			fa, va := args[len(args)-2], args[len(args)-1]
 			format, isConst := constStringValue(fa)
 			if !isConst {
+				// the format is put together from the current element of a literal table that is
+				// ranged over: one event per element (ext_x9.go)
+				if evs, ok := c.afmTableEventsX9(call, f, fa, va); ok {
+					events = append(events, evs...)
+					return
+				}
 				// the helper itself: its own format parameter, possibly with a constant added
 				core := fa
 				if b, ok := core.(*ssa.BinOp); ok && b.Op == token.ADD {
@@ -869,6 +880,7 @@ var afmTypes = []string{"Metrics", "GlyphInfo", "KernPair"}
 // afmOrigin traces an operand back to the field of Metrics, GlyphInfo or KernPair it is
 // computed from.
 func (c *Ctx) afmOrigin(v ssa.Value) afmArg {
+	defer c.afmEnterX9()()
 	a := afmArg{v: v}
 	if mi, ok := v.(*ssa.MakeInterface); ok {
 		v = mi.X
@@ -878,6 +890,11 @@ func (c *Ctx) afmOrigin(v ssa.Value) afmArg {
 		v = origin(v)
 		switch x := v.(type) {
 		case *ssa.Parameter:
+			if act, ok := c.afmActualX9(x); ok {
+				// inside a helper that was entered from one particular call (ext_x9.go)
+				v = act
+				continue
+			}
 			a.param = x
 			return a
 		case *ssa.MakeInterface:
@@ -890,6 +907,12 @@ func (c *Ctx) afmOrigin(v ssa.Value) afmArg {
 			v = x.X
 			continue
 		case *ssa.Extract:
+			// one of several results of a helper of the module: what the helper returns in that
+			// position, with its parameters standing for the operands of this call
+			if r, ok := c.afmResultX9(x); ok {
+				v = r
+				continue
+			}
 			v = x.Tuple
 			continue
 		case *ssa.Next:
